@@ -44,6 +44,7 @@ class Leaf(Config):
     b: Param[bool] = False
     e: Param[Color] = Color.RED
     o: Param[Optional[int]] = None
+    on: Param[Optional[int]] = 3
     p: Param[Path] = Path("/x")
     m: Meta[int] = 0
     opt: Option[str] = "o"
@@ -72,6 +73,9 @@ class Box(Config):
     dli: Param[Dict[str, List[int]]] = {}
     ldi: Param[List[Dict[str, int]]] = []
     ls: Param[List[str]] = []
+    lll: Param[List[List[Leaf]]] = []
+    dll: Param[Dict[str, List[Leaf]]] = {}
+    ldl: Param[List[Dict[str, Leaf]]] = []
     sa: Param[str] = "d"
     sb: Param[str] = "d"
     gen: Annotated[Path, pathgenerator("box.txt")]
